@@ -564,6 +564,9 @@ namespace detail_ {
 					case modes::pos:
 						if (isdigit(c)) {
 							pos_set = true;
+							// An index that does not fit is out of range.
+							if (tmp_pos > (size_t(-1) - (c - '0')) / 10)
+								return false;
 							tmp_pos *= 10;
 							tmp_pos += c - '0';
 						} else if (c == ':') {
@@ -584,6 +587,9 @@ namespace detail_ {
 
 					case modes::width:
 						if (isdigit(c)) {
+							// A width that does not fit into an int makes the specifier malformed.
+							if (fo.minimum_width > (__INT_MAX__ - (spec[i] - '0')) / 10)
+								return false;
 							fo.minimum_width *= 10;
 							fo.minimum_width += spec[i] - '0';
 						} else {
